@@ -736,7 +736,7 @@ def default_cases():
 EDGE_SIZES = [255, 256, 257, 32767, 32768, 32769, 65534, 65535, 65536, 65537, 65540, 70000]
 
 
-SLOW_HUGE = []
+SLOW_HUGE = ['split', 'trim', 'trimd']       # linear since the reference reverses with frev (round 5)
 
 
 def huge_cases(rng, count):
@@ -845,10 +845,12 @@ class C06(Check):
     level_text = ('Theorems in Coq (closed under the global context) about an executable model of the lazy-copy String that mirrors '
                   'String.hpp/String.cpp method by method (variables = data pointers to emptyData / the inline non-owning descriptor / '
                   'a heap block with cells, len, capacity, ref; immutable foreign regions for literals and attached memory; every read '
-                  'and write bounds-checked): for ALL histories of 66 operations over any number of String variables, '
+                  'and write bounds-checked): for ALL histories of 67 operations over any number of String variables, '
                   'string_refines_values (the model never fails with a memory error and the values and query results equal those of k '
                   'independent byte lists under pure reference functions - construction, attach, copy/assign, append/prepend incl. the '
-                  'String itself and a pointer INTO its own text as argument, resize/reserve/clear, write through char*, '
+                  'String itself and a pointer INTO its own text as argument (round 5: also prepend(p + off, len), OPrependOwn; the calls '
+                  'that leave out a defaulted argument - trim(), substr(start), split(tokens, separators) - are instances OTrimD / '
+                  'OSubstrD / OSplitD / OSplitSetD of the general operations with the declared default value), resize/reserve/clear, write through char*, '
                   'replace(char,char), replace(String,String), case mapping via the tables regenerated from String.cpp, trim, substr, '
                   'token, split into List and HashSet, join, printf/fromPrintf bookkeeping incl. printf with the own text as argument, '
                   '==, == literal, compare*, equalsIgnoreCase, find*, startsWith/endsWith, length, the static const char* helpers incl. '
@@ -857,7 +859,11 @@ class C06(Check):
                   'String(literal) and the by-value result are variables of the model that are created, copied and destroyed in the '
                   'code\'s order), fromBool (a view of a literal), fromCString(str) / (str, len), toBool, and the static char '
                   'functions toLowerCase(c)/toUpperCase(c)/isSpace/isAlphanumeric/isAlpha/isDigit/isLowerCase/isPrint/isPunct/'
-                  'isUpperCase/isHexDigit), char_functions_match_tables (for all 256 bytes the model\'s table lookups and range tests '
+                  'isUpperCase/isHexDigit), string_refines_as_seen (round 5: the same statement with the results the property text does not '
+                  'speak about - toBool, the character classifiers - blanked out by StrSpec.seen; this is what the property oracle '
+                  'enforces on the code, the exact statement is what model and code are compared on), '
+                  'empty_needle_found_up_to_length / nothing_else_at_length (find(x, start) of the reference: the empty needle at every '
+                  'start <= length(), nothing else at length(), nothing behind it), char_functions_match_tables (for all 256 bytes the model\'s table lookups and range tests '
                   'equal the reference character sets, and the classifiers agree with the regenerated lowerCaseMap/upperCaseMap: upper '
                   'case letters = what lowerCaseMap moves, ...), plus_temporaries_die, '
                   'cstr_nul_terminated, copies_independent, foreign_memory_unchanged/foreign_memory_kept (structural: the model has no '
@@ -885,19 +891,29 @@ class C06(Check):
                   'is cut at that operation ("! not-accepted"). (4) resize(n) beyond length() is driven as "resize, then fill the '
                   'exposed bytes through operator char*()" so that no indeterminate byte is ever observable; the state "grown from '
                   'empty without terminator" is only crossed, not observed. attach needs one readable byte behind the window '
-                  '(off + len < |buffer|). find(x, start)/token(char, start) with start >= length() answer not-found/empty also for an '
-                  'empty needle (choices listed in the header of StrSpec.v). (5) split is observed through its List / sorted HashSet '
+                  '(off + len < |buffer|) and - PRECONDITION, second audit finding A - memory the caller keeps alive: the attached range must '
+                  'not lie inside the block the String itself owns (attach releases that block; s.attach((const char*)s + 1, 3) on an owned '
+                  's views freed memory - heap-use-after-free at String.hpp:93; "including when an argument is the String itself" is about '
+                  'value arguments, attach takes over a memory range and no repair short of copying gives this a meaning; not driven, not a '
+                  'finding). find(x, start) follows the reference byte string since round 5: start > length() finds nothing, at start = '
+                  'length() only the empty needle is found (fix 10 repaired find(const char*, start), which refused start = length()); '
+                  'token(char, start) with start >= length() answers the empty token (choice listed in the header of StrSpec.v). (5) split is observed through its List / sorted HashSet '
                   'result; the temporaries it creates, and the copies the static-helper ops run on, are not part of the model state. '
                   '(6) Not driven and not modelled: scanf (vsscanf of libc on the C-string view: formatting/parsing is outside the property '
                   'text), toInt/toUInt/toInt64/toUInt64/toDouble and fromInt/.../fromDouble (atoi/strtoul/printf wrappers), '
                   'fromHex/fromBase64 (C18), hash() (C02). The classifiers isAlphanumeric ... isHexDigit call libc <ctype.h> on (uchar)c: '
                   'the model holds them as the "C"-locale reference functions (the harness never calls setlocale), trusted like strstr; '
-                  'isSpace, toLowerCase(c), toUpperCase(c) are the code\'s own range test on the SIGNED char / table lookups. toBool reads '
+                  'isSpace, toLowerCase(c), toUpperCase(c) are the code\'s own range test on the SIGNED char / table lookups. toBool and the '
+                  'classifiers isSpace ... isHexDigit are NOT operations of the property text (round 5, second audit finding E): their '
+                  'results are wildcards of the property oracle (StrSpec.seen -> "?" in spec mode); the model still mirrors the code and a '
+                  'different answer is reported as a correspondence break (no-failing-input-found), a crash or a changed value as a '
+                  'violation. toBool reads '
                   'the C-string view and is specified for NUL-free values; its reference (StrSpec.s_tobool) is the reading of the code\'s '
                   'evident intent: false = empty, "false" in any case, "0", zeros around one decimal point with at least one zero; '
                   'everything else - also "00" and "0.0." - is true. fromBool returns a String describing a literal of the library: the '
                   'harness adopts that literal as a (guard-less) foreign buffer and re-reads it after every operation. (7) Sizes are assumed < 2^63 '
-                  '(no usize wrap). (8) foreign_memory_unchanged/foreign_memory_kept hold by construction of the model (no operation '
+                  '(no usize wrap); values are driven up to 70000 bytes (stream huge: 2^8, 2^15, 2^16 boundaries; the model counts in unary, '
+                  'so 2^31 / 2^32 sizes - reachable in the code through String(capacity) / reserve - are not driven). (8) foreign_memory_unchanged/foreign_memory_kept hold by construction of the model (no operation '
                   'writes a region); what excludes writes to literal/attached memory is run_memory_safe (Err WriteForeign never occurs) '
                   'plus the guarded foreign memory of the harness. Trusted: Coq kernel, StrSpec.v as the reading of the property, '
                   'extraction + OCaml driver, harness, generators, table translator. The theorems are about the model; the tie to the '
@@ -916,8 +932,12 @@ class C06(Check):
             'attach / copy / assign / clear / resize / reserve), chars (EXHAUSTIVE: the 11 static char functions on all 256 bytes), '
             'tobool (EXHAUSTIVE: toBool on every text over {0 . x} up to length 5 (thorough: 6) and 35 border texts, held as '
             'owned buffer / unterminated attached window / literal / fromCString result / after += / after + literal), '
+            'defaults (round 5, EXHAUSTIVE: trim() with every byte 0..255 at both ends of an owned and an attached text, substr(start), '
+            'split(tokens, separators) for List and HashSet), huge (round 5: values of 255..257, 32767..32769, 65534..65540, 70000 bytes built '
+            'by fill / resize / append, then substr, token, split, trim, copy / assign, append / prepend also from the own text, join, +, '
+            'replace, printf with the own text, comparison, search; values above 1024 bytes are compared by length and FNV-1a checksum), '
             'scope1/scope2 (EXHAUSTIVE: every history of 1 resp. 2 operations of a '
-            '123-operation alphabet after a fixed prologue with a literal, two variables sharing a block and an unterminated view). A '
+            '143-operation alphabet after a fixed prologue with a literal, two variables sharing a block and an unterminated view). A '
             'case is non-trivial when the implementation\'s own dump shows at least two of {block shared by two variables, view, '
             'unterminated view, capacity change, self argument} and it has >= 3 mutating operations; distinct = distinct op text.')
     assumptions = ['sizes < 2^63 (no usize wrap-around in capacity arithmetic)',
@@ -925,6 +945,8 @@ class C06(Check):
                    'strstr/strpbrk/strchr of libc behave as first-occurrence search on NUL-free text (reference functions in StrModel.v)',
                    'isalnum/isalpha/isdigit/islower/isprint/ispunct/isupper/isxdigit of libc classify (uchar)c as in the "C" locale (reference functions m_is* in StrModel.v)',
                    'an indeterminate byte at str[len] is taken as non-zero by the C-string view (either answer yields a terminated view)',
+                   'attach(p, n): [p, p + n] is memory the caller keeps alive, not part of the block the String itself owns (precondition; the String releases its own block in attach)',
+                   'toBool and the character classifiers are outside the property text: their answers are compared with the model (correspondence) but are wildcards of the property oracle',
                    'StrSpec.v is the reading of the property text (values = byte lists, pure reference functions, domain predicate pre; its header lists what pre restricts and the choices made where the text is silent)']
     per_case_timeout = 1
 
@@ -1033,7 +1055,7 @@ class C06(Check):
                           note='every history of 2 operations over the same alphabet'))
         out.append(Stream('defaults', default_cases(), exhaustive=True,
                           note='round 5: the defaulted arguments - trim() on every byte 0..255 at both ends of a text (owned and attached), substr(start), split(tokens, separators) for List and HashSet'))
-        out.append(Stream('huge', huge_cases(rng, 160 if th else 30),
+        out.append(Stream('huge', huge_cases(rng, 160 if th else 24),
                           note='round 5: values of 255 .. 257, 32767 .. 32769, 65534 .. 65540 and 70000 bytes (built by fill / resize / append) handed to substr, token, split, trim, copy / assign, append / prepend (also from the own text), join, +, replace, printf with the own text, comparison and search; values above 1024 bytes are compared by length and a 32-bit checksum'))
         if th:
             out.append(Stream('scope3', scope_cases(3, SCOPE3_ALPHABET), exhaustive=True,
